@@ -2,6 +2,7 @@ package main
 
 import (
 	"fmt"
+	"go/types"
 	"math/big"
 	"time"
 )
@@ -154,6 +155,23 @@ func init() {
 	reg("Havoc", func(in *Interp, fr *Frame, a []Value) Value {
 		iv := a[0].(IfaceV)
 		in.havocPtr(iv, argStr(a[1]))
+		return nil
+	})
+	reg("Consumed", func(in *Interp, fr *Frame, a []Value) Value {
+		if iv, ok := a[0].(IfaceV); ok {
+			if c, ok := iv.V.(ChanV); ok && c.Ch != nil {
+				c.Ch.Consumed = true
+			}
+		}
+		return nil
+	})
+	reg("HavocInto", func(in *Interp, fr *Frame, a []Value) Value {
+		iv := a[0].(IfaceV)
+		p, ok := iv.V.(PtrV)
+		if !ok || p.C == nil {
+			in.fail("HavocInto needs a non-nil pointer")
+		}
+		in.havocInto(p, iv.T.Underlying().(*types.Pointer).Elem(), argStr(a[1]))
 		return nil
 	})
 	reg("Snapshot", func(in *Interp, fr *Frame, a []Value) Value {
